@@ -202,7 +202,13 @@ func RunGrid(mk func() GridDriver, prop, tier string, seed int64, confCap int, k
 		panic(perr)
 	}
 	gs.Conf += ok
-	gs.Parts[d0.Name()] = map[string]any{"cases": len(cases), "rule": d0.Rule(), "conformance": ok}
+	pm := map[string]any{"cases": len(cases), "rule": d0.Rule(), "conformance": ok}
+	if ex, isEx := d0.(interface{ Extra() map[string]any }); isEx {
+		for k, v := range ex.Extra() {
+			pm[k] = v
+		}
+	}
+	gs.Parts[d0.Name()] = pm
 	gs.Elapsed += time.Since(t0)
 }
 
